@@ -32,4 +32,9 @@ let () = register "c04.names" (fun line ->
     obs ^ "\tNAMESCOVERED\t" ^ (match cls with [] -> "-" | l -> String.concat "," l)
   | _ -> "BAD-CASE")
 
+let () = register "c04.errlocs" (fun line ->
+  match split_ws line with
+  | h :: _ -> fst (lex_model ~always:true (bytes_of_hex h)) ^ "\t-\t-"
+  | _ -> "BAD-CASE")
+
 let () = main ()
